@@ -209,7 +209,10 @@ func (g *DocGen) value(d int, isConst bool) string {
 	case 4:
 		return g.R.Pick([]string{"true", "false"})
 	case 5:
-		return g.R.Pick([]string{"RED", "null", "A_b", "on"})
+		if g.R.Chance(1, 12) {
+			return "null" // rejected by this edition of the grammar
+		}
+		return g.R.Pick([]string{"RED", "GREEN", "A_b", "on"})
 	case 6:
 		if g.Exotic && g.R.Chance(1, 2) {
 			return g.blockString()
